@@ -32,8 +32,20 @@ implementation-side oracle and the correspondence runs of checks/C05.py):
                   The witnesses stay in the harness corpus (programs 0 and 1):
                   they gave wrong results on the real streaming pair before the
                   fix and agree with the whole circuit now.
+                * `C05_gc_query_safe`: the same safety for EVERY implementation
+                  of the `aliasLive` query, with any state kept between queries,
+                  provided each answer is sound for the set it is asked about
+                  (`CurrentSound`); `C05_gc_query_table` /
+                  `C05_gc_current_set_sound`: `Program.GC` as it is is the
+                  stateless instance and is current-sound.
+                  `C05_gcMemo_unsafe` / `C05_gcMemo_not_current_sound` /
+                  `C05_gcMemo_ids_collide`: a memo table of answers that lives
+                  for the whole backward pass is NOT (witness: an array update
+                  chain in one branch of an if / else whose stored scalar is used
+                  once more).
 -/
 import MpcVerif.Proofs.Gc
+import MpcVerif.Proofs.GcQuery
 import MpcVerif.Proofs.Stream
 import MpcVerif.Model.LabelBV
 import MpcVerif.Model.Proto2
@@ -541,6 +553,148 @@ theorem C05_const_second_width_witness :
 
 example : padFromFirst ([false, false, true].take 3) true 5 = padFromOwn [false, false, true] 3 true 5 :=
   C05_const_pad_partial _ 3 5 true (by decide) (by decide) (by decide)
+
+
+/-! ### The liveness query must be answered against the CURRENT set
+
+The backward pass of `Program.GC` asks `aliasLive(v)` for inputs at many
+instructions; the set it consults changes from instruction to instruction.
+`gcPassQ` (Model/GcQuery.lean) is the pass with the query as a parameter that
+may keep ANY state between queries. -/
+
+/-- Safety of the gc insertion for every implementation of the liveness query
+and every initial state of it, as long as an answer "no alias live" is sound
+for the set it was asked about. -/
+theorem C05_gc_query_safe {σ : Type} (q : Query σ) (st0 : σ) (prog out : List Step) (hwf : WF prog)
+    (hq : CurrentSound prog q) (hgc : gcPassQ q st0 prog = some out) : Safe prog out :=
+  gcPassQ_safe q st0 prog out hwf hq hgc
+
+/-- `Program.GC` as it is is the stateless instance of the parametrised pass
+(the model the correspondence runs compare with the real step lists). -/
+theorem C05_gc_query_table (prog : List Step) :
+    gcPassQ (tableQuery (aliasClosure (aliasesOf prog) prog.length)) () prog = gcInsert prog :=
+  gcPassQ_table _ prog
+
+/-- ... and its closure is sound for the current set, for every well-formed
+step list: `C05_gcInsert_safe` is an instance of `C05_gc_query_safe`. -/
+theorem C05_gc_current_set_sound (prog : List Step) (hwf : WF prog) :
+    CurrentSound prog (tableQuery (aliasClosure (aliasesOf prog) prog.length)) :=
+  tableQuery_currentSound prog hwf.dbu
+
+example (prog out : List Step) (hwf : WF prog) (hgc : gcInsert prog = some out) : Safe prog out :=
+  C05_gc_query_safe _ () prog out hwf (C05_gc_current_set_sound prog hwf) (by rw [C05_gc_query_table]; exact hgc)
+
+/-- Non-vacuity: the parametrised pass on `okProg`. -/
+example : gcPassQ (tableQuery (aliasClosure (aliasesOf okProg) okProg.length)) () okProg = some
+    [okProg[0], okProg[1], gcStep (mkV 2 8), okProg[2], gcStep (mkV 1 8), okProg[3]] := by decide
+
+/-- Witness against a memo table that lives for the whole pass.  The step list
+of
+
+    func main(a [4]uint32, b uint32) ([4]uint32, uint32) {
+        var r uint32
+        if a[0] == 7 { r = 1 } else { a[1] = b; a[2] = 5; r = (b + 1) * 3 }
+        return a, r }
+
+(values: a=0 b=1; t0 = a[0] (2); t1 = t0 == 7 (3); t2 = amov b into a (4);
+t3 = amov 5 into t2 (5); t4 = b + 1 (6); t5 = t4 * 3 (7); t6 = phi t1 a t3 (8);
+t7 = phi t1 1 t5 (9)). -/
+def memoProg : List Step :=
+  [⟨.slice, [mkV 0 128, mkC 10 32 0, mkC 11 32 32], some (mkV 2 32)⟩,
+   ⟨.circ, [mkV 2 32, mkC 12 32 7], some (mkV 3 1)⟩,
+   ⟨.amov, [mkV 1 32, mkV 0 128, mkC 11 32 32, mkC 13 32 64], some (mkV 4 128)⟩,
+   ⟨.amov, [mkC 14 32 5, mkV 4 128, mkC 13 32 64, mkC 15 32 96], some (mkV 5 128)⟩,
+   ⟨.circ, [mkV 1 32, mkC 16 32 1], some (mkV 6 32)⟩,
+   ⟨.circ, [mkV 6 32, mkC 17 32 3], some (mkV 7 32)⟩,
+   ⟨.circ, [mkV 3 1, mkV 0 128, mkV 5 128], some (mkV 8 128)⟩,
+   ⟨.circ, [mkV 3 1, mkC 16 32 1, mkV 7 32], some (mkV 9 32)⟩,
+   ⟨.ret, [mkV 8 128, mkV 9 32], none⟩]
+
+/-- What the pass with the pass-long memo table makes of it.  At the phi `t6`
+(processed first: the pass runs backwards) `a` is queried while `t3` is not yet
+marked; the walk a -> t2 -> t3 caches `t2 ↦ false`.  At `t4 = b + 1` the query
+for `b` finds its only alias `t2` in the table -- although `t3`, which holds
+`b`'s wire ids as element 1, is live there (read by the phi): `gc b`. -/
+def memoOut : List Step :=
+  [memoProg[0], memoProg[1], gcStep (mkV 2 32), memoProg[2], memoProg[3], gcStep (mkV 4 128), memoProg[4],
+   gcStep (mkV 1 32), memoProg[5], gcStep (mkV 6 32), memoProg[6], gcStep (mkV 5 128), gcStep (mkV 0 128),
+   memoProg[7], gcStep (mkV 7 32), gcStep (mkV 3 1), memoProg[8]]
+
+theorem C05_gcMemo_pass : gcPassMemo memoProg = some memoOut := by decide +kernel
+
+/-- Negation witness: with a memo table across instructions the gc insertion
+is unsafe on a well-formed program. -/
+theorem C05_gcMemo_unsafe :
+    WF memoProg ∧ gcPassMemo memoProg = some memoOut ∧ ¬ Safe memoProg memoOut := by
+  refine ⟨⟨by decide, by decide, by decide⟩, C05_gcMemo_pass, ?_⟩
+  intro h
+  refine h [memoProg[0], memoProg[1], gcStep (mkV 2 32), memoProg[2], memoProg[3], gcStep (mkV 4 128), memoProg[4]]
+    [memoProg[5], gcStep (mkV 6 32), memoProg[6], gcStep (mkV 5 128), gcStep (mkV 0 128),
+     memoProg[7], gcStep (mkV 7 32), gcStep (mkV 3 1), memoProg[8]]
+    (gcStep (mkV 1 32)) rfl rfl (mkV 1 32) (by simp [gcStep]) memoProg[6] (by simp) (by decide)
+    (mkV 5 128) (by decide) rfl ?_
+  -- t3 -> t2 -> b
+  refine PointsInto.step memoProg[3] (mkV 4 128) 5 1 (by decide) rfl rfl (by decide) rfl ?_
+  refine PointsInto.step memoProg[2] (mkV 1 32) 4 1 (by decide) rfl rfl (by decide) rfl ?_
+  exact PointsInto.self 1 (by decide)
+
+/-- ... so the memoised query is not sound for the set it is asked about (by
+`C05_gc_query_safe`; concretely: state `[t2 ↦ false]`, set `{t3}`, value `b`). -/
+theorem C05_gcMemo_not_current_sound :
+    ¬ CurrentSound memoProg (memoQuery (aliasesOf memoProg) (memoProg.length + 1)) := by
+  intro hq
+  have hwf : WF memoProg := C05_gcMemo_unsafe.1
+  have hgc : gcPassQ (memoQuery (aliasesOf memoProg) (memoProg.length + 1)) [] memoProg = some memoOut := by
+    have h := C05_gcMemo_pass
+    unfold gcPassMemo at h
+    rw [defineBeforeUse_id memoProg hwf.dbu] at h
+    exact h
+  exact C05_gcMemo_unsafe.2.2 (C05_gc_query_safe _ [] memoProg memoOut hwf hq hgc)
+
+example : (memoQuery (aliasesOf memoProg) (memoProg.length + 1) [(4, false)] [5] 1).1 = false ∧
+    (tableQuery (aliasClosure (aliasesOf memoProg) memoProg.length) () [5] 1).1 = true := by decide
+
+def bitsOf (n w : Nat) : List Bool := (List.range w).map fun i => n.testBit i
+
+def memoConsts : List ConstDef :=
+  [⟨10, 0, bitsOf 0 32⟩, ⟨11, 0, bitsOf 32 32⟩, ⟨12, 0, bitsOf 7 32⟩, ⟨13, 0, bitsOf 64 32⟩,
+   ⟨14, 0, bitsOf 5 32⟩, ⟨15, 0, bitsOf 96 32⟩, ⟨16, 0, bitsOf 1 32⟩, ⟨17, 0, bitsOf 3 32⟩]
+
+/-- The id slice the allocator model holds for the value with key `k` after
+the first `n` steps of the GC'd list. -/
+def memoIdsAt (out : List Step) (n k : Nat) : Option (Array Nat) :=
+  (((streamTrace [⟨0, 128, 0⟩, ⟨1, 32, 0⟩] memoConsts (out.take n)).1.chain 0).find? (·.key == k)).bind (·.ids)
+
+/-- In the allocator model the freed range of `b` (wire ids 128..159) is handed
+to `t5 = t4 * 3` while element 1 of `t3` still consists of exactly these ids:
+right before the phi, `t3[32..63]` and `t5` are the same wires, so the phi reads
+`(b + 1) * 3` where `b` is meant.  Go: a[1] = 0x12f instead of 0x64 for b = 100. -/
+theorem C05_gcMemo_ids_collide :
+    (memoIdsAt memoOut 10 5).map (·.extract 32 64) = memoIdsAt memoOut 10 7 ∧
+    memoIdsAt memoOut 10 7 = some (idRange 128 32) := by
+  decide +kernel
+
+/-- `Program.GC` as it is on the witness: no `gc b` (and no `gc t2`); the table
+emptied before every query gives the same list; in the allocator model `t5`
+gets fresh ids. -/
+theorem C05_gcMemo_witness_now_safe :
+    gcPass memoProg = some
+      [memoProg[0], memoProg[1], gcStep (mkV 2 32), memoProg[2], memoProg[3], memoProg[4], memoProg[5],
+       gcStep (mkV 6 32), memoProg[6], gcStep (mkV 5 128), gcStep (mkV 0 128), memoProg[7], gcStep (mkV 7 32),
+       gcStep (mkV 3 1), memoProg[8]] ∧
+    gcPassQ (freshMemoQuery (aliasesOf memoProg) (memoProg.length + 1)) () memoProg = gcPass memoProg ∧
+    (∀ out, gcPass memoProg = some out →
+      ((memoIdsAt out 8 5).map (·.extract 32 64) = some (idRange 128 32) ∧
+       (memoIdsAt out 8 7).map (fun ids => ids.toList.all (fun i => decide (i ≥ 160 + 2))) = some true)) := by
+  refine ⟨by decide +kernel, by decide +kernel, ?_⟩
+  intro out h
+  have h0 : gcPass memoProg = some
+      [memoProg[0], memoProg[1], gcStep (mkV 2 32), memoProg[2], memoProg[3], memoProg[4], memoProg[5],
+       gcStep (mkV 6 32), memoProg[6], gcStep (mkV 5 128), gcStep (mkV 0 128), memoProg[7], gcStep (mkV 7 32),
+       gcStep (mkV 3 1), memoProg[8]] := by decide +kernel
+  rw [h0] at h
+  cases h
+  decide +kernel
 
 /-- The wire-side theorem applies to the executed instance (`BitVec 128`, any
 block function, offset after `SetS(true)`). -/
